@@ -132,7 +132,8 @@ class QueryPlanner:
                 return
 
             # cut integration part
-            if len(node.parts) > 1 and node.parts[0].lower() == database:
+            # the first part of a two-part column name is a table name or alias, not the integration
+            if len(node.parts) > (1 if is_table else 2) and node.parts[0].lower() == database:
                 node.parts.pop(0)
 
             if not hasattr(parent_query, 'from_table'):
